@@ -111,6 +111,7 @@ type ProcResult struct {
 	ErrText  string    `json:"err_text"`
 	ErrType  string    `json:"err_type"`
 	Fatal    bool      `json:"fatal"`
+	IsQueryError bool  `json:"is_query_error"`
 	Panic    string    `json:"panic,omitempty"`
 	Stamps   []OutStamp `json:"-"`
 	EndStep  int64     `json:"end_step"`
@@ -516,6 +517,11 @@ func (k *Kernel) accept(a *arrival) {
 	for _, o := range k.obs {
 		o.OnArrival(k, g, a)
 	}
+	if k.sc.RmRepoAt > 0 && g.proc.idx == 0 && g.proc.yields == k.sc.RmRepoAt {
+		_ = os.RemoveAll(k.Dir)
+		k.logf("repository removed at yield %d (%s)", g.proc.yields, a.point)
+		k.Stats.fault("repository-removed")
+	}
 	// scenario-level cancellation (a simulated signal) keyed to the process's
 	// own progress, so that it survives schedule minimisation
 	for i := range k.sc.Cancels {
@@ -672,18 +678,14 @@ func (k *Kernel) Run() {
 		}
 		nsl := k.sleepers()
 		if len(k.parked) == 0 {
-			if nsl == 0 {
-				// nothing runnable and no timer csvq would wake up from
-				k.Hang = "deadlock: no runnable goroutine and no pending timer; " + k.describeBlocked()
-				k.logf("hang %s", k.Hang)
-				k.abort()
-				break
-			}
+			// nothing is runnable: let simulated time advance to the next timer of
+			// csvq (retry loops, deadlines). If there is none, only the idle-limit
+			// timer of the controller remains: that is a deadlock.
 			k.Stats.TimeAdvances++
 			k.logf("time")
 			if !k.waitArrival() {
-				k.Hang = "no progress within the idle limit; " + k.describeBlocked()
-				k.logf("hang %s", k.Hang)
+				k.Hang = "deadlock or no progress within " + idleLimit.String() + " of simulated time: no runnable goroutine; " + k.describeBlocked() + "\n" + blockedStacks()
+				k.logf("hang")
 				k.abort()
 				break
 			}
@@ -732,6 +734,24 @@ func (k *Kernel) allDone() bool {
 		}
 	}
 	return true
+}
+
+// blockedStacks returns the stacks of the goroutines that are blocked inside
+// csvq (not parked by the scheduler), for the report of a hang.
+func blockedStacks() string {
+	buf := make([]byte, 1<<20)
+	n := runtime.Stack(buf, true)
+	var keep []string
+	for _, g := range strings.Split(string(buf[:n]), "\n\n") {
+		if strings.Contains(g, "synctest bubble") && strings.Contains(g, "mithrandie/csvq") && !strings.Contains(g, "(*Kernel).park") && !strings.Contains(g, "(*Kernel).Run(") {
+			lines := strings.Split(g, "\n")
+			if len(lines) > 13 {
+				lines = lines[:13]
+			}
+			keep = append(keep, strings.Join(lines, "\n"))
+		}
+	}
+	return strings.Join(keep, "\n--\n")
 }
 
 func (k *Kernel) describeBlocked() string {
